@@ -83,15 +83,22 @@ def generate(master, index, tier):
             items.append(it)
     mode = rng.choice(("ignore", "log+handler", "log+handler", "log", "raise", "raise"))
     q = {"ignore": 0, "log+handler": 1, "log": 1, "raise": 2}[mode]
+    kind = rng.choice(("bytesio", "buffered", "socket", "socket"))
+    aims, poll = [], 0
+    if kind == "socket" and rng.random() < 0.3:
+        # timeouts / OS errors from recv exactly at item boundaries, application polls again:
+        # nothing is in flight there, so the expected events are those of the fault-free run
+        aims, poll = W.gen_boundary_faults(rng, items, W.SOCK_FAULTS)
     return {
         "prop": PROP,
-        "kind": rng.choice(("bytesio", "buffered", "socket", "socket")),
+        "kind": kind,
+        "poll": poll,
         "bufsize": rng.choice((1, 2, 3, 5, 7, 64, 512, 1029, 4096)),
         "rawbuf": rng.choice((1, 2, 8, 64, 8192)),
         "items": items,
         "driver": rng.choice(("iterate", "iterate", "read")),
         "opts": {"quitonerror": q, "parsed": True, "labelmsm": rng.choice((1, 2)), "handler": rng.choice(W.HANDLER_KINDS) if (mode in ("log+handler", "ignore") or (mode == "raise" and rng.random() < 0.5)) else False},
-        "sched": {"seed": rng.getrandbits(48), "seg": rng.choice(("full", "byte", "small", "random", "mixed"))},
+        "sched": {"seed": rng.getrandbits(48), "seg": rng.choice(("full", "byte", "small", "random", "mixed")), "aims": aims},
     }
 
 
@@ -171,7 +178,8 @@ def execute(scn):
     taken = st.link.taken if st.link else []
     explicit = {k: v for k, v in scn.items() if k != "sched"}
     explicit["decisions"] = taken
-    counters = {"kind:" + scn["kind"]: 1, "mode:q%d%s" % (q, "+h" if scn["opts"].get("handler") else ""): 1, "damaged_frames": ndmg, "good_frames": len(good), "good_after_damaged": after, "intra_frame_boundaries": intra}
+    bfaults = sum(st.link.fired.values()) if st.link else 0
+    counters = {"boundary_faults_fired": bfaults, "runs_with_boundary_faults": 1 if bfaults else 0, "kind:" + scn["kind"]: 1, "mode:q%d%s" % (q, "+h" if scn["opts"].get("handler") else ""): 1, "damaged_frames": ndmg, "good_frames": len(good), "good_after_damaged": after, "intra_frame_boundaries": intra}
     sets = {"damage_kinds": {it[2].split("/")[0] for it in items if it[0] == "dmg"}}
     evd = [(o[0], o[1] if o[0] == "frame" else type(o[1]).__name__) for o in obs]
     return {
@@ -180,7 +188,7 @@ def execute(scn):
         "explicit": explicit,
         "stats": {
             "nontrivial": ndmg > 0 and after > 0 and any(o[0] == "frame" for o in obs),
-            "scn_d64": d64((items, scn["kind"], scn["bufsize"], scn.get("rawbuf"), taken, sorted(scn["opts"].items()), scn.get("driver"))),
+            "scn_d64": d64((items, scn["kind"], scn["bufsize"], scn.get("rawbuf"), taken, sorted(scn["opts"].items()), scn.get("driver"), scn.get("poll", 0))),
             "counters": counters,
             "sets": sets,
             "sim_seconds": 0.0,
